@@ -140,11 +140,13 @@ def build(tier, seed):
                 d.tags.append("C16")
             der_for(d, ["Hash"])
     # ---- other / generic
-    for key in ("opt", "arr", "fvec"):
+    for key in ("opt", "arr", "fvec", "bytes"):
         for variant in range(3):
             idx += 1
             d = b.new(OTHER_INNERS[key], tags=list(tags))
-            if key == "opt":
+            if key == "bytes":
+                san, pred = "{ let mut x = x; x.truncate(3); x }", "x.first() != Some(&13)"
+            elif key == "opt":
                 san, pred = "x.map(|v| v.wrapping_abs())", "*x != Some(13)"
             elif key == "arr":
                 san, pred = "{ let mut x = x; x.sort(); x }", "x[1] != 13"
@@ -154,7 +156,8 @@ def build(tier, seed):
                 add_with_sanitizer(d, san, SPELLINGS[idx % 4])
             if variant == 2:
                 add_predicate(d, pred, "closure")
-            der_for(d)
+            # element-wise views next to the serde impls (a serializer that goes through the iterator instead of the inner value's own impl)
+            der_for(d, ["IntoIterator", "AsRef", "Deref"] if "IntoIterator" in d.inner.caps else ["AsRef", "Deref"])
     for key in ("vec", "point", "cow", "gvec", "gord"):
         inner = OTHER_INNERS[key]
         for variant in range(4):
